@@ -39,6 +39,9 @@ class OVF:
     def disks(self) -> Iterator[str]:
         for disk in self.xml.findall(self.DISK_DRIVE_XPATH, self.NS):
             resource = disk.find("{{{rasd}}}HostResource".format(**self.NS))
+            if resource is None:
+                # An empty drive, nothing is attached to it
+                continue
             xpath = resource.text
             xpath = xpath.removeprefix("ovf:")
 
